@@ -4,6 +4,7 @@ package main
 // ingress.ServicesFilter, node / involved-object / selector-match filters.
 
 import (
+	"go/types"
 	"fmt"
 	"go/token"
 	"strings"
@@ -209,6 +210,21 @@ func checkPodsFilters(c *Ctx, orderOnly bool) {
 			}
 		}
 		c.check(sortedOK, rule, name+"/sorted-copy-of-sources", pos, "copy then sort.Slice", name+": "+sortDetail)
+		// nothing in the builder iterates over a map: Go randomises that order, and the order of
+		// the Or/And children is part of the filter's identity (Equals is order-sensitive)
+		noMapRange := true
+		for g := range c.P.ownerClosure(fn) {
+			for _, b := range g.Blocks {
+				for _, in := range b.Instrs {
+					if rg, isRange := in.(*ssa.Range); isRange {
+						if _, isMap := rg.X.Type().Underlying().(*types.Map); isMap {
+							noMapRange = false
+						}
+					}
+				}
+			}
+		}
+		c.check(noMapRange, rule, name+"/no-map-iteration", pos, "", name+" ranges over a map while building the filter: the children's order, and with it equality of filters built from the same sources, becomes random")
 		// comparator
 		if cl := closureArgOf(fn, "sort.Slice"); cl != nil {
 			c.useFn(cl)
